@@ -107,10 +107,17 @@ type op struct {
 	al               []alEntry
 }
 
-func decodeCase(c Sx) ([]dbAcct, []op) {
+func decodeCase(c Sx) ([]dbAcct, []op, bool) {
 	l := AsList(c)
-	if len(l) != 2 {
-		panic("hxlib: case must be (db ops)")
+	if len(l) != 2 && len(l) != 3 {
+		panic("hxlib: case must be (db ops) or (db ops 1)")
+	}
+	quiet := false
+	if len(l) == 3 {
+		if AsInt(l[2]) != 1 {
+			panic("hxlib: bad mode")
+		}
+		quiet = true
 	}
 	var db []dbAcct
 	for _, e := range AsList(l[0]) {
@@ -187,7 +194,7 @@ func decodeCase(c Sx) ([]dbAcct, []op) {
 		}
 		ops = append(ops, o)
 	}
-	return db, ops
+	return db, ops, quiet
 }
 
 func encodeOp(o op) Sx {
@@ -771,7 +778,7 @@ func dumpImpl(st *state.StateDB, fails *[]string) Sx {
 }
 
 func run(c Sx) Result {
-	db, ops := decodeCase(c)
+	db, ops, quiet := decodeCase(c)
 	st := buildState(db)
 	rf := newRef(db)
 	g := newGuard(db)
@@ -787,8 +794,19 @@ func run(c Sx) Result {
 			before[a] = true
 		}
 		w := applyOp(st, o)
-		d := dumpImpl(st, &fails)
-		obs = append(obs, L(I(int64(w)), d))
+		var d Sx
+		last := i == len(ops)-1
+		if quiet {
+			// no getter is called between ops: read caches (code, origin storage) stay as the ops left them
+			obs = append(obs, I(int64(w)))
+			if last {
+				d = dumpImpl(st, &fails)
+				obs = append(obs, d)
+			}
+		} else {
+			d = dumpImpl(st, &fails)
+			obs = append(obs, L(I(int64(w)), d))
+		}
 		wr := rf.step(o)
 		g.after(before, rf, o)
 		tags[opNames[o.tag]] = true
@@ -813,6 +831,8 @@ func run(c Sx) Result {
 		if g.unguarded == "" && len(fails) == 0 {
 			if wr != w {
 				fails = append(fails, fmt.Sprintf("op %d (%s): returned %d, reference %d", i, opNames[o.tag], w, wr))
+			} else if d == nil {
+				// quiet mode, not the last op: nothing observed
 			} else if ds, rs := String(d), String(rf.dump()); ds != rs {
 				fails = append(fails, fmt.Sprintf("op %d (%s): getters differ from the reference account model: impl=%s ref=%s",
 					i, opNames[o.tag], diffAt(ds, rs), ""))
@@ -826,6 +846,9 @@ func run(c Sx) Result {
 		tags["unguarded-"+g.unguarded] = true
 	} else {
 		tags["guarded"] = true
+	}
+	if quiet {
+		tags["quiet"] = true
 	}
 	if len(db) > 0 {
 		tags["committed-start"] = true
@@ -939,11 +962,19 @@ func encodeDB(db []dbAcct) Sx {
 // genHistory produces one history; guarded=true keeps every op inside the guards
 // (the reference is then the specification); guarded=false may step outside
 // (CreateContract never followed by a touch, raw SelfDestruct under Amsterdam rules).
-func genHistory(r *Rng, guarded bool, long bool) Sx {
+func genHistory(r *Rng, guarded bool, long bool, quiet bool) Sx {
 	rs := ruleSets[r.Intn(len(ruleSets))]
 	var db []dbAcct
-	if r.Bool() {
+	if r.Bool() || quiet {
 		db = genDB(r)
+	}
+	if quiet { // committed contracts whose code is never read before it is overwritten
+		for i := range db {
+			if db[i].code == 0 && r.Bool() {
+				db[i].code = 1 + r.Intn(3)
+				db[i].nonce = 1
+			}
+		}
 	}
 	rf := newRef(db)
 	g := newGuard(db)
@@ -1082,6 +1113,9 @@ func genHistory(r *Rng, guarded bool, long bool) Sx {
 	for _, o := range ops {
 		enc = append(enc, encodeOp(o))
 	}
+	if quiet {
+		return L(encodeDB(db), enc, I(1))
+	}
 	return L(encodeDB(db), enc)
 }
 
@@ -1093,11 +1127,13 @@ func gen(r *Rng, tier string, emit func(Sx)) {
 	for i := 0; i < n; i++ {
 		switch {
 		case i%10 == 9:
-			emit(genHistory(r.Fork(), false, false)) // adversarial stream: outside the guards
+			emit(genHistory(r.Fork(), false, false, false)) // adversarial stream: outside the guards
 		case i%10 == 8:
-			emit(genHistory(r.Fork(), true, true)) // long transactions
+			emit(genHistory(r.Fork(), true, true, false)) // long transactions
+		case i%10 == 7 || i%10 == 6:
+			emit(genHistory(r.Fork(), true, i%10 == 6, true)) // quiet: observed only at the end (unloaded caches)
 		default:
-			emit(genHistory(r.Fork(), true, false))
+			emit(genHistory(r.Fork(), true, false, false))
 		}
 	}
 }
@@ -1109,7 +1145,7 @@ func main() {
 			"(every tenth history 10-40), nested snapshots to depth 6 with reverts to arbitrary live ids (and invalid ids), rule sets " +
 			"{pre-158, 158, Cancun/6780 discipline, Amsterdam}, from the empty state and from committed states (empty, balance-only, EOA, contract " +
 			"with storage, storage without code); values include 0, small, 2^256-k, 2^64-k. 90% guarded histories (reference model is the " +
-			"oracle after every op), 10% adversarial (CreateContract never touched, raw SelfDestruct under Amsterdam: model vs implementation only). " +
+			"oracle after every op), 20% quiet histories from committed states with code, observed only by one dump at the end so that no getter fills the code/storage read caches between ops, 10% adversarial (CreateContract never touched, raw SelfDestruct under Amsterdam: model vs implementation only). " +
 			"Non-trivial: at least one successful revert, one Finalise and 8 ops; distinct = distinct case line.",
 		Gen: gen,
 		Run: run,
